@@ -1,52 +1,99 @@
-(* C11 — the open-request ledger, part B: no kept failed id outside class 2; validations stay at the handle. *)
+(* C11 — the open-request ledger, part B: no dead substream id; validations stay at the handle. *)
 From Coq Require Import List NArith Bool Lia.
 From V.C11 Require Import Model PBase PSB PLedgerA.
 Import ListNotations.
 Open Scope N_scope.
 
-(* no kept failed id (outside finding class 2): every substream id a peer state waits for is owed by the transport *)
-Definition B3 (s : st) : Prop := forall p x, wq (ps s p) = Some x -> In (x, p) (spend s).
-
-Definition class2_step (s : st) (o : op) : bool :=
-  match o with
-  | OpenFail p =>
-      conn s p &&
-      match first_req p (spend s) with
-      | Some _ => match ps s p with Some (Validating _ (OInit _) _) => true | _ => false end
-      | None => false
-      end
-  | _ => false
+(* no dead substream id: every substream id an outbound attempt in progress waits for is owed by the
+   transport (W), and so is every entry of pending_outbound (P). Since the repair of the former finding
+   class 2 (a remembered id is adopted only while pending_outbound lists it) this holds for every history. *)
+Definition wq2 (x : option pstate) : option sid :=
+  match x with
+  | Some (OutInit y) => Some y
+  | Some (Validating _ (OInit y) _) => Some y
+  | _ => None
   end.
 
-Lemma B3_mono s s' :
-  B3 s -> (forall q x, wq (ps s' q) = Some x -> wq (ps s q) = Some x) ->
-  (forall e, In e (spend s) -> In e (spend s')) -> B3 s'.
-Proof. intros B W S p x H. apply S, B, W, H. Qed.
+Definition B3 (s : st) : Prop :=
+  (forall p x, wq2 (ps s p) = Some x -> In (x, p) (spend s)) /\
+  (forall x q, In (x, q) (pend s) -> In (x, q) (spend s)).
 
-Lemma B3_new s s' p v :
-  B3 s -> ps_at s s' p v -> wq v = Some (nsid s) -> spend s' = spend s ++ [(nsid s, p)] -> B3 s'.
+Lemma pend_find_in x l q : pend_find x l = Some q -> In (x, q) l.
 Proof.
-  intros B PA Wv S q x H. rewrite S. apply in_or_app. rewrite PA in H. destruct (q =? p) eqn:E.
-  - apply N.eqb_eq in E. subst q. rewrite Wv in H. injection H as <-. right. left. reflexivity.
-  - left. auto.
+  induction l as [|[y r] l IH]; cbn; [discriminate|]. destruct (y =? x) eqn:E.
+  - intros H; injection H as ->. apply N.eqb_eq in E. subst. auto.
+  - auto.
 Qed.
 
-Lemma B3_answer s s' p x v :
-  B3 s -> SB s -> In (x, p) (spend s) -> ps_at s s' p v -> wq v = None ->
-  spend s' = pend_remove x (spend s) -> B3 s'.
+Lemma in_pend_insert x p y (q : peer) l : In (y, q) (pend_insert x p l) -> (y = x /\ q = p) \/ (In (y, q) l /\ y <> x).
 Proof.
-  intros B SBs Hx PA Wv S q y H. rewrite S. rewrite PA in H. destruct (q =? p) eqn:E.
-  - rewrite Wv in H. discriminate.
-  - apply in_pend_remove. split; auto. intros ->. apply N.eqb_neq in E. apply E.
-    eapply spend_owner; eauto.
+  unfold pend_insert. intros [H|H].
+  - injection H as <- <-. auto.
+  - apply in_pend_remove in H. auto.
+Qed.
+
+Lemma B3_mono s s' :
+  B3 s -> (forall q x, wq2 (ps s' q) = Some x -> wq2 (ps s q) = Some x) ->
+  (forall e, In e (pend s') -> In e (pend s)) ->
+  (forall e, In e (spend s) -> In e (spend s')) -> B3 s'.
+Proof.
+  intros [B P] W Pe S. split.
+  - intros p x H. apply S, B, W, H.
+  - intros x q H. apply S, P, Pe, H.
+Qed.
+
+Lemma B3_new s s' p v :
+  B3 s -> ps_at s s' p v -> wq2 v = Some (nsid s) -> pend s' = pend_insert (nsid s) p (pend s) ->
+  spend s' = spend s ++ [(nsid s, p)] -> B3 s'.
+Proof.
+  intros [B P] PA Wv Pe S. split.
+  - intros q x H. rewrite S. apply in_or_app. rewrite PA in H. destruct (q =? p) eqn:E.
+    + apply N.eqb_eq in E. subst q. rewrite Wv in H. injection H as <-. right. left. reflexivity.
+    + left. auto.
+  - intros x q H. rewrite S. apply in_or_app. rewrite Pe in H. apply in_pend_insert in H.
+    destruct H as [[-> ->]|[H _]]; [right; left; reflexivity|left; auto].
+Qed.
+
+(* a new request whose result the protocol does not wait for cannot arise: svc_open failing adds nothing *)
+Lemma B3_answer s s' p x v :
+  B3 s -> SB s -> In (x, p) (spend s) -> ps_at s s' p v -> wq2 v = None ->
+  pend s' = pend_remove x (pend s) -> spend s' = pend_remove x (spend s) -> B3 s'.
+Proof.
+  intros [B P] SBs Hx PA Wv Pe S. split.
+  - intros q y H. rewrite S. rewrite PA in H. destruct (q =? p) eqn:E.
+    + rewrite Wv in H. discriminate.
+    + apply in_pend_remove. split; auto. intros ->. apply N.eqb_neq in E. apply E.
+      eapply spend_owner; eauto.
+  - intros y q H. rewrite S. rewrite Pe in H. apply in_pend_remove in H. destruct H as [H Hne].
+    apply in_pend_remove. auto.
 Qed.
 
 Lemma B3_closed s s' p v :
-  B3 s -> ps_at s s' p v -> wq v = None -> spend s' = drop_peer p (spend s) -> B3 s'.
+  B3 s -> ps_at s s' p v -> wq2 v = None -> pend s' = drop_peer p (pend s) ->
+  spend s' = drop_peer p (spend s) -> B3 s'.
 Proof.
-  intros B PA Wv S q y H. rewrite S. rewrite PA in H. destruct (q =? p) eqn:E.
-  - rewrite Wv in H. discriminate.
-  - apply in_drop_peer. split; auto. now apply N.eqb_neq.
+  intros [B P] PA Wv Pe S. split.
+  - intros q y H. rewrite S. rewrite PA in H. destruct (q =? p) eqn:E.
+    + rewrite Wv in H. discriminate.
+    + apply in_drop_peer. split; auto. now apply N.eqb_neq.
+  - intros y q H. rewrite S. rewrite Pe in H. apply in_drop_peer in H. destruct H as [H Hne].
+    apply in_drop_peer. auto.
+Qed.
+
+(* the remembered id is adopted: pending_outbound lists it, so the transport owes it, and to this peer *)
+Lemma B3_reuse s s' p x q0 :
+  B3 s -> SB s -> ps s p = Some (Closed (Some x)) -> pend_find x (pend s) = Some q0 ->
+  ps_at s s' p (Some (OutInit x)) -> pend s' = pend_insert x p (pend s) -> spend s' = spend s -> B3 s'.
+Proof.
+  intros [B P] [B1 B2] Hp Hf PA Pe S.
+  assert (X : In (x, p) (spend s)).
+  { pose proof (P _ _ (pend_find_in _ _ _ Hf)) as X. destruct (B2 p x) as [_ O]; [rewrite Hp; reflexivity|].
+    now rewrite <- (O _ X). }
+  split; rewrite S.
+  - intros q y H. rewrite PA in H. destruct (q =? p) eqn:E.
+    + apply N.eqb_eq in E. subst q. cbn in H. injection H as <-. exact X.
+    + auto.
+  - intros y q H. rewrite Pe in H. apply in_pend_insert in H. destruct H as [[-> ->]|[H _]]; auto.
 Qed.
 
 Ltac wq_mono_close :=
@@ -55,22 +102,24 @@ Ltac wq_mono_close :=
   repeat (match goal with |- context [q =? ?p] => destruct (q =? p) eqn:E; [apply N.eqb_eq in E; subst q|] end);
   repeat match goal with E : ps _ _ = _ |- _ => rewrite E end;
   repeat match goal with o : outb |- _ => destruct o end; cbn; intros X; first [exact X | discriminate X | congruence].
-Ltac B3_mono_close B := eapply (B3_mono _ _ B); [wq_mono_close | setters; intros e He; first [exact He | apply in_or_app; left; exact He]].
+Ltac B3_mono_close B :=
+  eapply (B3_mono _ _ B);
+  [wq_mono_close | setters; intros e He; exact He | setters; intros e He; first [exact He | apply in_or_app; left; exact He]].
 Ltac B3_new_close B :=
   match goal with |- context [spend ?s ++ [(nsid ?s, ?p)]] =>
-    eapply (B3_new s _ p _ B); [psat_close | reflexivity | reflexivity] end.
+    eapply (B3_new s _ p _ B); [psat_close | reflexivity | reflexivity | reflexivity] end.
 Ltac B3_closed_close B :=
   match goal with |- context [drop_peer ?p (spend ?s)] =>
-    eapply (B3_closed s _ p _ B); [psat_close | reflexivity | reflexivity] end.
+    eapply (B3_closed s _ p _ B); [psat_close | reflexivity | reflexivity | reflexivity] end.
 Ltac B3_answer_close B SBs :=
   same_peer SBs;
   match goal with Hf : first_req ?p (spend ?s) = Some ?x |- _ =>
-    eapply (B3_answer s _ p x _ B SBs); [apply first_req_in; exact Hf | psat_close | reflexivity | reflexivity] end.
-Ltac class2_contra C2 :=
-  exfalso; unfold class2_step in C2;
-  repeat match goal with E : _ = _ |- _ => tryif constr_eq E C2 then fail else rewrite E in C2 end; cbn in C2; discriminate C2.
-Ltac B3_close B SBs C2 :=
-  first [B3_mono_close B | B3_new_close B | B3_closed_close B | B3_answer_close B SBs | (same_peer SBs; class2_contra C2)].
+    eapply (B3_answer s _ p x _ B SBs); [apply first_req_in; exact Hf | psat_close | reflexivity | reflexivity | reflexivity] end.
+Ltac B3_reuse_close B SBs :=
+  match goal with Hp : ps ?s ?p = Some (Closed (Some ?x)), Hf : pend_find ?x (pend ?s) = Some ?q0 |- _ =>
+    eapply (B3_reuse s _ p x q0 B SBs Hp Hf); [psat_close | reflexivity | reflexivity] end.
+Ltac B3_close B SBs :=
+  first [B3_reuse_close B SBs | B3_new_close B | B3_closed_close B | B3_answer_close B SBs | B3_mono_close B].
 
 Lemma B3_on_shutdown s p : B3 s -> B3 (on_shutdown s p).
 Proof.
@@ -79,14 +128,14 @@ Proof.
 Qed.
 
 Lemma B3_main c s o s1 ev cl :
-  B3 s -> SB s -> class2_step s o = false -> main_handler c s o = Some (s1, ev, cl) -> B3 s1.
+  B3 s -> SB s -> main_handler c s o = Some (s1, ev, cl) -> B3 s1.
 Proof.
-  intros B SBs C2 M. destruct o; unfold_handlers M.
-  all: try (split_all; try (B3_close B SBs C2; fail); fail).
-  - split_all; try (B3_close B SBs C2; fail). apply B3_on_shutdown. B3_mono_close B.
+  intros B SBs M. destruct o; unfold_handlers M.
+  all: try (split_all; try (B3_close B SBs; fail); fail).
+  - split_all; try (B3_close B SBs; fail). apply B3_on_shutdown. B3_mono_close B.
   - match type of M with context [finish_tasks ?a ?b] => destruct (finish_tasks a b) as [[l' e'] n'] end.
     split_all. unfold run_shutdowns. match goal with |- context [if ?b then _ else _] => destruct b end; [|apply B3_on_shutdown]; B3_mono_close B.
-  - split_all; try (B3_close B SBs C2; fail). apply B3_on_shutdown. B3_mono_close B.
+  - split_all; try (B3_close B SBs; fail). apply B3_on_shutdown. B3_mono_close B.
 Qed.
 
 (* no replaced validation: a substream that is being validated has its request at the handle *)
